@@ -33,9 +33,7 @@ pub(super) fn generate_enum_definitions<'a, 'schema: 'a>(
             .variants
             .iter()
             .map(|v| {
-                // Escape keywords after normalization: normalizing can turn an escaped name
-                // back into a keyword (`self_` would become `Self`).
-                let name = super::shared::keyword_replace(normalization.enum_variant(v.as_str()));
+                let name = super::shared::enum_variant_ident(*normalization, v.as_str());
                 let name = Ident::new(&name, Span::call_site());
 
                 quote!(#name)
@@ -48,7 +46,7 @@ pub(super) fn generate_enum_definitions<'a, 'schema: 'a>(
             .variants
             .iter()
             .map(|v| {
-                let name = super::shared::keyword_replace(normalization.enum_variant(v.as_str()));
+                let name = super::shared::enum_variant_ident(*normalization, v.as_str());
                 let v = Ident::new(&name, Span::call_site());
 
                 quote!(#name_ident::#v)
